@@ -97,12 +97,43 @@ func (it *Interp) concretise(s AbsSlice) (SliceV, bool) {
 	o := it.NewArrayObject(types.Typ[types.Uint8], n, g.Name, true)
 	for i, c := range o.Root.Kids {
 		c.Val = TermV{SymByte(g.Name + "[" + itoa(i) + "]")}
+		if pc := it.symIdx[g.Name+"["+itoa(i)+"]"]; pc != nil {
+			c.Val = pc.Val // the byte was accessed (and possibly written) before the length was fixed
+		}
 	}
 	if it.inputs == nil {
 		it.inputs = map[string]*Object{}
 	}
 	it.inputs[key] = o
 	return SliceV{Arr: o.Root, Lo: 0, Len: TInt(int64(n)), Cap: -1}, true
+}
+
+// symIndex returns the cell of byte i of a named symbolic string whose length is not yet fixed on this path
+// but is provably larger than i.
+func (it *Interp) symIndex(v Value, i int) *Cell {
+	s, ok := v.(AbsSlice)
+	if !ok || len(s.Segs) != 1 || i < 0 {
+		return nil
+	}
+	g := s.Segs[0]
+	if g.Bytes != nil || g.Zeros || g.Min != nil || g.Name == "" {
+		return nil
+	}
+	lo, _ := it.ApplyTerm(g.Len).Bounds()
+	if lo.Cmp(big.NewInt(int64(i))) <= 0 {
+		return nil
+	}
+	key := g.Name + "[" + itoa(i) + "]"
+	if c := it.symIdx[key]; c != nil {
+		return c
+	}
+	o := it.NewObject(types.Typ[types.Uint8], key, true)
+	o.Root.Val = TermV{SymByte(key)}
+	if it.symIdx == nil {
+		it.symIdx = map[string]*Cell{}
+	}
+	it.symIdx[key] = o.Root
+	return o.Root
 }
 
 func itoa(i int) string { return big.NewInt(int64(i)).String() }
@@ -249,6 +280,13 @@ func (fr *Frame) step(in ssa.Instruction) {
 		fr.regs[x] = t[x.Index]
 	case *ssa.Call:
 		fr.regs[x] = fr.call(x)
+	case *ssa.MakeClosure:
+		fn, _ := x.Fn.(*ssa.Function)
+		var binds []Value
+		for _, b := range x.Bindings {
+			binds = append(binds, fr.get(b))
+		}
+		fr.regs[x] = ClosureV{Fn: fn, Binds: binds}
 	case *ssa.TypeAssert:
 		v := fr.get(x.X)
 		dyn := v
@@ -360,6 +398,9 @@ func (fr *Frame) indexAddr(x *ssa.IndexAddr) Value {
 	case SliceV, AbsSlice:
 		s, ok := it.asSlice(b)
 		if !ok {
+			if c := it.symIndex(b, i); c != nil {
+				return Ptr{c}
+			}
 			it.event("bounds", fr.fn, x.Pos(), "index %d into a slice whose length is not fixed on this path (possible run-time panic)", i)
 			it.abortf("indexing a string of symbolic length in %s", fr.fn)
 		}
@@ -537,4 +578,10 @@ func (it *Interp) applyBind(v Value) Value {
 		return v
 	}
 	return it.applyAssume(v)
+}
+
+// ClosureV is a function literal with its captured variables.
+type ClosureV struct {
+	Fn    *ssa.Function
+	Binds []Value
 }
